@@ -104,6 +104,8 @@ pub struct Profile {
     pub thresholds: Vec<usize>,
     /// C05: now and then offer a safe sink below the documented minimum
     pub submin: bool,
+    /// ... whatever the sink kind (MEMSINK: every sink of the str functions is a safe `&mut str`)
+    pub submin_any_kind: bool,
 }
 
 impl Profile {
@@ -135,6 +137,7 @@ impl Profile {
             pipe: false,
             thresholds: Vec::new(),
             submin: false,
+            submin_any_kind: false,
         }
     }
 }
@@ -218,7 +221,7 @@ impl<'a> PrngSource<'a> {
             (0, 0)
         };
         let mut o = Offer { cap, kind, fill, phase, dst_off, src_off, query, pipe_cut, pipe_hold, submin: false };
-        if self.profile.submin && (kind == K_STR || kind == K_STRING) && self.rng.chance(1, 5) {
+        if self.profile.submin && (kind == K_STR || kind == K_STRING || self.profile.submin_any_kind) && self.rng.chance(1, 5) {
             o.submin = true;
             o.query = false;
             o.cap = self.rng.below(min.max(1));
